@@ -511,6 +511,8 @@ class Facts:
         with open(path) as f:
             self.j = json.load(f)
         _normalise_consts(self.j)
+        import inline
+        self.inlined = inline.normalise(self.j, inline.known_fns())
         self.header = self.j["header"]
         self.cfg = self.header["cfg"]
         self.bodies = {}
